@@ -83,6 +83,16 @@ def _p6(rep):
             for g in guards:
                 if g[0] == "if" and g[2] is True and is_len_test(g[1]):
                     ok_guard = True
+                if g[0] == "arm":
+                    # `match self.values_len() { Some(len) if len < self.max_value_len() => <enumerate>, _ => self }`
+                    mm, arm = g[1], g[1]["arms"][g[2]]
+                    pt, gd = arm["pat"], arm.get("guard")
+                    if show(mm["e"], 0).replace(" ", "") == "self.values_len()" and pt["k"] == "tuplestruct" and pt["path"]["segs"][-1] == "Some" and len(pt["elems"]) == 1 and pt["elems"][0]["k"] == "ident" and gd is not None and gd["k"] == "binary":
+                        v = pt["elems"][0]["name"]
+                        l, r, o = show(gd["lhs"], 0).replace(" ", "").lstrip("*"), show(gd["rhs"], 0).replace(" ", "").lstrip("*"), gd["op"].strip()
+                        cap = "self.max_value_len()"
+                        if (o in ("<", "<=") and l == v and r == cap) or (o in (">", ">=") and r == v and l == cap):
+                            ok_guard = True
     rep.instance("P6", "Intervals<i64>::into_values@guard", {"enumerations": len(enum_calls), "guarded_by_length_test": ok_guard})
     if enum_calls and not ok_guard:
         rep.violation("P6", "Intervals<i64>::into_values@guard", "self.values() is materialised without the test `values_len() < max_value_len()`", iv.where())
@@ -340,18 +350,25 @@ def run(rep):
             continue
         P = preds_of(b)
         for (bi, mac, line) in sites:
-            chain = variant_chain(b, bi, P)
-            base = "%s|%s|%s" % (nclo(b["path"]), mac, ">".join(chain) if chain else "-")
-            counts[base] += 1
-            key = base if counts[base] == 1 else "%s#%d" % (base, counts[base])
-            where = "%s:%d" % (b["file"], line)
-            rep.instance("P1", key, {"fn": b["path"], "macro": mac, "selected_by": chain, "where": where})
-            rep.violation(
-                "P1",
-                key,
-                "%s!() reachable (%s) via %s" % (mac, " > ".join(chain) if chain else "unconditional in this path", " -> ".join(x[:90] for x in R.chain(seen, lp[b["path"]])[-4:])),
-                where,
-            )
+            chain0 = variant_chain(b, bi, P)
+            # one report per input construct: an arm `A | B | C => todo!()` aborts on three constructs, whether it is written as one arm or as three
+            last = chain0[-1] if chain0 else None
+            alts = [chain0]
+            if last and "::" in last and "|" in last.split("::", 1)[1]:
+                en, vs = last.split("::", 1)
+                alts = [chain0[:-1] + ["%s::%s" % (en, v)] for v in vs.split("|")]
+            for chain in alts:
+                base = "%s|%s|%s" % (nclo(b["path"]), mac, ">".join(chain) if chain else "-")
+                counts[base] += 1
+                key = base if counts[base] == 1 else "%s#%d" % (base, counts[base])
+                where = "%s:%d" % (b["file"], line)
+                rep.instance("P1", key, {"fn": b["path"], "macro": mac, "selected_by": chain, "where": where})
+                rep.violation(
+                    "P1",
+                    key,
+                    "%s!() reachable (%s) via %s" % (mac, " > ".join(chain) if chain else "unconditional in this path", " -> ".join(x[:90] for x in R.chain(seen, lp[b["path"]])[-4:])),
+                    where,
+                )
     rep.extra["explicit_abort_sites_in_crate"] = total_sites
 
     # ---------------- P2
